@@ -5,7 +5,7 @@ EXTENDS Rules
 L(form, key, indent, trail, sfx) == [form |-> form, key |-> key, indent |-> indent, trail |-> trail, sfx |-> sfx]
 
 \* matching / non-matching / partially matching / indented / blank lines for
-\*   ^[a-z]+$   [0-9]   ^x   ^.{3,}$
+\*   ^[a-z]+$   [0-9]   ^x   ^.{3,}$   ^[a-z]*$   ^(x.*)?$
 MCLines == { L("k", <<97, 98>>, 0, 0, 0),          \* "ab"
              L("k", <<97, 98>>, 3, 2, 0),          \* "   ab  "  (matches only after trimming)
              L("k", <<97, 49>>, 0, 0, 0),          \* "a1"      partial for ^[a-z]+$
@@ -18,5 +18,5 @@ MCLines == { L("k", <<97, 98>>, 0, 0, 0),          \* "ab"
              L("blank", <<>>, 0, 0, 0), L("ws", <<>>, 2, 0, 0) }
 
 MCConfigs == { [kind |-> "pattern", dir |-> "asc", sp |-> "", pat |-> "none", fmt |-> "lex",
-                lp |-> p, op |-> "==", n |-> 0] : p \in {"lower", "digit", "startx", "min3"} }
+                lp |-> p, op |-> "==", n |-> 0] : p \in {"lower", "digit", "startx", "min3", "lower0", "optx"} }
 =============================================================================
